@@ -388,14 +388,25 @@ def run(ctx, res):
         d = os.path.join(ctx.tmp, 'cl%d' % trial)
         os.makedirs(d, exist_ok=True)
         ow = rng.random() < 0.5
-        carts, store0, names = [], {}, []
+        carts, store0, names, owner = [], {}, [], {}
         for k in range(rng.randrange(1, 5)):
             png = rng.random() < 0.4
-            kind = rng.choice(['good', 'good', 'bad-code', 'missing', 'garbage'])
+            kind = rng.choice(['good', 'good', 'bad-code', 'missing', 'garbage', 'not-a-cart'])
             if png and kind == 'bad-code':
                 kind = 'good'        # (a .p8.png is loaded through the parser already: unparseable code makes it unloadable, see 'garbage')
             nm = 'c%d%s' % (k, '.p8.png' if png else '.p8')
             pth = os.path.join(d, nm)
+            if kind == 'not-a-cart':
+                # an argument whose name is not a cart name (it may or may not exist): reported and passed over, nothing written, and
+                # the carts after it keep their own output names
+                nm = 'n%d%s' % (k, rng.choice(['.txt', '.lua', '.p8.bak', '.P8', '.png', '', '.p8.png.old', '.p8x']))
+                pth = os.path.join(d, nm)
+                if rng.random() < 0.7:
+                    open(pth, 'wb').write(b'notes %d\n' % k)
+                    store0[nm] = open(pth, 'rb').read()
+                carts.append('%s,0,1,r:ff' % nm)
+                names.append(pth)
+                continue
             if kind in ('good', 'bad-code'):
                 gfile.to_file(U.make_game(rng=rng, code=b'x=%d\n' % k, version=8), pth)
                 if kind == 'bad-code':
@@ -415,6 +426,8 @@ def run(ctx, res):
                 store0[outn] = open(os.path.join(d, outn), 'rb').read()
             # (a missing file is not one of the load errors the loop reports and skips: the exception ends the command, like a failed write)
             carts.append('%s,%d,%d,%s' % (nm, 1 if png else 0, 1 if (loads or kind == 'missing') else 0, 'x' if kind in ('bad-code', 'missing') else 'r:ff'))
+            if kind == 'good':
+                owner[outn] = k
             names.append(pth)
         tags = {n: '%02x' % (i + 1) for i, n in enumerate(sorted(store0))}
         cl_lines.append('pgf %d %s %s' % (1 if ow else 0, ';'.join(carts), ';'.join('%s=%s' % (n, tags[n]) for n in sorted(store0)) or '.'))
@@ -424,12 +437,12 @@ def run(ctx, res):
             except BaseException as e:
                 outcome = 'raised'
         after = {n: open(os.path.join(d, n), 'rb').read() for n in sorted(os.listdir(d))}
-        cl_cases.append((trial, ow, carts, store0, tags, outcome, after))
+        cl_cases.append((trial, ow, carts, store0, tags, outcome, after, owner, d))
         res.evaluations += 1
         res.count('command-lines')
         res.nontrivial.add(('cl', trial, ow, tuple(carts)))
     if ctx.model.available and cl_lines:
-        for (trial, ow, carts, store0, tags, outcome, after), m in zip(cl_cases, ctx.model.run(cl_lines)):
+        for (trial, ow, carts, store0, tags, outcome, after, owner, d), m in zip(cl_cases, ctx.model.run(cl_lines)):
             key = 'C11:command-line:%d' % trial
             inp = {'overwrite': ow, 'carts': carts, 'files_before': sorted(store0)}
             parts = m.split(' ')
@@ -451,6 +464,14 @@ def run(ctx, res):
                     res.fail(key, '%s was changed although its cart failed or was not processed (%s)' % (n, outcome), inp)
                 elif w_ == 'ff' and n in store0 and after[n] == store0[n] and not n.endswith(('_fmt.p8', '_fmt.p8.png')) is False:
                     res.fail(key, '%s should have been rewritten (%s) but still holds its earlier content' % (n, outcome), inp)
+                elif w_ == 'ff' and n in owner:
+                    # what was written under a cart's output name is that cart's code, formatted (not another cart's)
+                    try:
+                        code_ = b''.join(gfile.from_file(os.path.join(d, n)).lua.to_lines())
+                    except Exception as e:
+                        code_ = b'unreadable: ' + repr(e).encode()
+                    if code_.replace(b' ', b'').strip() != b'x=%d' % owner[n]:
+                        res.fail(key, '%s does not hold the formatted code of its own cart (x=%d) but %r' % (n, owner[n], code_[:60]), inp)
     # model trace shape (Lean `toFile`) is compared structurally above: [exists, (read label)], temp writes, seek, open, write
 
 
